@@ -416,3 +416,134 @@ pub fn mapset(cfg: GenCfg) -> impl Strategy<Value = MapSet> {
 pub fn order_seed() -> impl Strategy<Value = u64> {
 	prop_oneof![Just(0u64), any::<u64>()]
 }
+
+// ---------------------------------------------------------------------------------------------
+// edit scripts: derive a related mapping set from a base set, driven by a generated byte stream
+
+pub struct Draws<'a> {
+	data: &'a [u8],
+	pos: usize,
+}
+
+impl<'a> Draws<'a> {
+	pub fn new(data: &'a [u8]) -> Draws<'a> {
+		Draws { data, pos: 0 }
+	}
+	pub fn next(&mut self) -> u8 {
+		if self.data.is_empty() {
+			return 0;
+		}
+		let v = self.data[self.pos % self.data.len()];
+		// after wrapping around, perturb so that long structures do not repeat exactly
+		let wrap = (self.pos / self.data.len()) as u8;
+		self.pos += 1;
+		v.wrapping_add(wrap.wrapping_mul(37))
+	}
+	pub fn pct(&mut self, p: u8) -> bool {
+		pct(self.next(), p)
+	}
+	pub fn ident(&mut self) -> String {
+		let i = idx((self.next() as u16) << 8 | self.next() as u16, SAFE_IDENT.len());
+		SAFE_IDENT[i].to_string()
+	}
+	pub fn doc(&mut self) -> String {
+		let n = 1 + self.next() % 3;
+		(0..n).map(|_| DOC_LINES[idx((self.next() as u16) << 8, DOC_LINES.len())]).collect::<Vec<_>>().join("\n")
+	}
+}
+
+pub fn draws() -> impl Strategy<Value = Vec<u8>> {
+	vec(any::<u8>(), 0..200)
+}
+
+/// Derives a variant of `base`: entries dropped, target names (namespace `ns`) changed, comments
+/// added / edited / removed, a few entries added.  A zero stream returns `base` unchanged.
+pub fn edit(base: &MapSet, ns: usize, stream: &[u8]) -> MapSet {
+	let mut d = Draws::new(stream);
+	let n = base.ns.len();
+	fn edit_doc(d: &mut Draws, doc: &mut Option<String>) {
+		if d.pct(20) {
+			*doc = match (doc.is_some(), d.pct(50)) {
+				(true, true) => None,
+				_ => Some(d.doc()),
+			};
+		}
+	}
+	fn edit_name(d: &mut Draws, names: &mut Names, ns: usize, suffix: &str) {
+		if d.pct(25) {
+			names[ns] = Some(format!("{}{}", d.ident(), suffix));
+		}
+	}
+	let mut out = MapSet { ns: base.ns.clone(), classes: BTreeMap::new() };
+	for (ck, c) in &base.classes {
+		if d.pct(15) {
+			continue;
+		}
+		let mut c = c.clone();
+		edit_name(&mut d, &mut c.names, ns, "");
+		edit_doc(&mut d, &mut c.doc);
+		let mut fields = BTreeMap::new();
+		for (fk, f) in &c.fields {
+			if d.pct(15) {
+				continue;
+			}
+			let mut f = f.clone();
+			edit_name(&mut d, &mut f.names, ns, "");
+			edit_doc(&mut d, &mut f.doc);
+			fields.insert(fk.clone(), f);
+		}
+		if d.pct(15) {
+			let name = d.ident();
+			let mut names: Names = vec![None; n];
+			names[0] = Some(name.clone());
+			names[ns] = Some(d.ident());
+			fields.entry(MemberKey { name, desc: "I".into() }).or_insert(MField { names, doc: None });
+		}
+		c.fields = fields;
+		let mut methods = BTreeMap::new();
+		for (mk, me) in &c.methods {
+			if d.pct(15) {
+				continue;
+			}
+			let mut me = me.clone();
+			if !mk.name.starts_with('<') {
+				edit_name(&mut d, &mut me.names, ns, "");
+			}
+			edit_doc(&mut d, &mut me.doc);
+			let mut params = BTreeMap::new();
+			for (pk, p) in &me.params {
+				if d.pct(15) {
+					continue;
+				}
+				let mut p = p.clone();
+				edit_name(&mut d, &mut p.names, ns, "");
+				edit_doc(&mut d, &mut p.doc);
+				params.insert(*pk, p);
+			}
+			if d.pct(15) {
+				let mut names: Names = vec![None; n];
+				names[ns] = Some(d.ident());
+				params.entry((d.next() % 8) as usize).or_insert(MParam { names, doc: None });
+			}
+			me.params = params;
+			methods.insert(mk.clone(), me);
+		}
+		if d.pct(15) {
+			let name = d.ident();
+			let mut names: Names = vec![None; n];
+			names[0] = Some(name.clone());
+			names[ns] = Some(d.ident());
+			methods.entry(MemberKey { name, desc: "()V".into() }).or_insert(MMethod { names, doc: None, params: BTreeMap::new() });
+		}
+		c.methods = methods;
+		out.classes.insert(ck.clone(), c);
+	}
+	if d.pct(20) {
+		let name = format!("added/{}", d.ident());
+		let mut names: Names = vec![None; n];
+		names[0] = Some(name.clone());
+		names[ns] = Some(format!("added/{}", d.ident()));
+		out.classes.entry(name).or_insert(MClass { names, ..Default::default() });
+	}
+	out
+}
